@@ -137,11 +137,14 @@ static void section(int m, int yields) {
 static uint64_t work_mutex(int style, int rounds, int which) {
   int m = ((which % NMTX) + NMTX) % NMTX;
   for (int i = 0; i < rounds; i++) {
-    switch (((style % 3) + 3) % 3) {
+    switch (((style % 4) + 4) % 4) {
       case 0: lock(g_mtx[m]); section(m, 1 + i % 3); unlock(g_mtx[m]); break;
       case 1: { int spins = 0; while (!trylock(g_mtx[m])) { sim_pause(); if (++spins > 100000) viol("C13", "C13:trylock-livelock", "trylock never succeeds"); }
                 section(m, 1); unlock(g_mtx[m]); stat_add("thr.trylock_spins", spins); break; }
-      default: with (mm in g_mtx[m]) { section(m, 2); } break;
+      case 2: with (mm in g_mtx[m]) { section(m, 2); } break;
+      default: /* try first, wait if it is taken */
+        if (!trylock(g_mtx[m])) { stat_add("thr.trylock_failed_then_lock", 1); lock(g_mtx[m]); }
+        section(m, 1 + i % 2); unlock(g_mtx[m]); break;
     }
   }
   return (uint64_t)rounds;
@@ -262,7 +265,7 @@ static void threads_generate(Plan* p, Rng* r) {
   for (int th = 0; th < nth; th++) {
     int nw = 1 + (int)rng_below(r, 4);
     for (int i = 0; i < nw; i++) {
-      if (rng_chance(r, 1, 3)) plan_add(p, T_MUTEX, th, 0, rng_below(r, 3), rng_below(r, 12), rng_below(r, NMTX), 0, 0, 0);
+      if (rng_chance(r, 1, 3)) plan_add(p, T_MUTEX, th, 0, rng_below(r, 4), rng_below(r, 12), rng_below(r, NMTX), 0, 0, 0);
       else plan_add(p, T_WORK, th, 0, rng_below(r, W_NKINDS), rng_below(r, 40), rng_below(r, 1000), 0, 0, 0);
     }
   }
